@@ -77,6 +77,79 @@ Fixpoint take_n (l : str) (n : N) : str :=
   | x :: r => if n =? 0 then [] else x :: take_n r (n - 1)
   end.
 
+Definition is_nil {A} (l : list A) : bool := match l with [] => true | _ => false end.
+Definition is_nil_str (s : str) : bool := is_nil s.
+
+(* ---------- the referrers tag schema (registries without the Referrers API) ---------- *)
+
+(* decimal digits of a number (strconv / encoding/json) *)
+Fixpoint dec_aux (fuel : nat) (n : N) (acc : str) : str :=
+  match fuel with
+  | O => acc
+  | S f => if n <? 10 then (48 + n) :: acc else dec_aux f (n / 10) ((48 + n mod 10) :: acc)
+  end.
+Definition dec_of_N (n : N) : str := dec_aux (S (N.size_nat n)) n [].
+
+Definition json_str (s : str) : str := [34] ++ s ++ [34].   (* media types and digests need no escaping *)
+
+(* encoding/json of an ocispec.Descriptor without optional fields *)
+Definition desc_json (d : desc) : str :=
+  b "{""mediaType"":" ++ json_str (d_mt d) ++ b ",""digest"":" ++ json_str (d_dg d)
+  ++ b ",""size"":" ++ dec_of_N (d_sz d) ++ b "}".
+
+Fixpoint join_with (sep : str) (l : list str) : str :=
+  match l with
+  | [] => []
+  | [x] => x
+  | x :: r => x ++ sep ++ join_with sep r
+  end.
+
+(* generateIndex: {"schemaVersion":2,"mediaType":<image index>,"manifests":[...]} *)
+Definition gen_index (l : list desc) : str :=
+  b "{""schemaVersion"":2,""mediaType"":" ++ json_str mt_index ++ b ",""manifests"":["
+  ++ join_with (b ",") (map desc_json l) ++ b "]}".
+
+Definition desc_eqb (x y : desc) : bool :=
+  str_eqb (d_mt x) (d_mt y) && str_eqb (d_dg x) (d_dg y) && (d_sz x =? d_sz y).
+Definition desc_zero (x : desc) : bool := is_nil_str (d_mt x) && is_nil_str (d_dg x) && (d_sz x =? 0).
+
+(* first occurrences only, empty descriptors dropped (the first loop of applyReferrerChanges) *)
+Fixpoint clean_refs (seen l : list desc) : list desc :=
+  match l with
+  | [] => []
+  | x :: r => if desc_zero x || existsb (desc_eqb x) seen then clean_refs seen r
+              else x :: clean_refs (x :: seen) r
+  end.
+
+Inductive rchange := RAdd (d : desc) | RRemove (d : desc).
+
+(* applyReferrerChanges with at most one change; None = errNoReferrerUpdate *)
+Definition apply_change (old : list desc) (ch : option rchange) : option (list desc) :=
+  let cl := clean_refs [] old in
+  let dirty := negb (length cl =? length old)%nat in
+  match ch with
+  | None => if dirty then Some cl else None
+  | Some (RAdd d) =>
+      if existsb (desc_eqb d) cl then (if dirty then Some cl else None) else Some (cl ++ [d])
+  | Some (RRemove d) =>
+      if existsb (desc_eqb d) cl then Some (filter (fun x => negb (desc_eqb d x)) cl)
+      else (if dirty then Some cl else None)
+  end.
+
+(* utils.go decodeJSON, as the translator reads it from the source: the body is read through
+   content.ReadAll (exactly desc.Size bytes whose digest is desc.Digest) before it is decoded *)
+Fixpoint strs_eqb (x y : list str) : bool :=
+  match x, y with
+  | [], [] => true
+  | a :: x', c :: y' => str_eqb a c && strs_eqb x' y'
+  | _, _ => false
+  end.
+Definition decode_json_verifies : bool :=
+  strs_eqb decodeJSON_calls [b "content.ReadAll"; b "json.Unmarshal"].
+
+(* buildReferrersTag: <alg>-<encoded> *)
+Definition ref_tag (dg : str) : str := map (fun c => if c =? 58 then 45 else c) dg.
+
 Definition nstr (o : option str) : str := match o with Some s => s | None => [] end.
 
 Section Client.
@@ -89,6 +162,9 @@ Section Client.
   (* effective Repository.MaxMetadataBytes (the regenerated default when <= 0): limitSize on
      the descriptor of a manifest the client decodes, and the bound on the body it hashes *)
   Variable limit : N.
+  Variable skip_gc : bool.                       (* Repository.SkipReferrersGC *)
+  (* encoding/json of a referrers index: its "manifests" (None = not decodable) *)
+  Variable index_of : str -> option (list desc).
 
   Variable srv : Type.
   Variable exch : srv -> request -> srv * response.
@@ -362,6 +438,69 @@ Section Client.
         else (s1, rst, [(q, r)], None)
     end.
 
+  Definition lift (x : srv * trace * result) (rst : rstate) : srv * rstate * trace * result :=
+    let '(s, t, r) := x in (s, rst, t, r).
+
+  (* referrersFromIndex: FetchReference(referrers tag) + limitSize + decodeJSON, which reads the
+     body through content.ReadAll: exactly desc.Size bytes whose digest is desc.Digest *)
+  Definition referrers_from_index (s : srv) (tag : str)
+    : srv * trace * result * option (desc * list desc) :=
+    let '(s1, t1, res) := man_fetchref s tag in
+    match res with
+    | RDescBytes d body =>
+        if limit <? d_sz d then (s1, t1, RErr EOther, None)
+        else if decode_json_verifies && (negb (len body =? d_sz d) || negb (str_eqb (H body) (d_dg d)))
+        then (s1, t1, RErr EOther, None)
+        else match index_of body with
+             | Some l => (s1, t1, ROk, Some (d, l))
+             | None => (s1, t1, RErr EOther, None)
+             end
+    | _ => (s1, t1, res, None)
+    end.
+
+  (* updateReferrersIndex (Merge.Do with one change = prepare; update) *)
+  Definition update_referrers_index (s : srv) (rst : rstate) (subj : desc) (ch : rchange)
+    : srv * rstate * trace * result :=
+    if negb (valid_digest (d_dg subj)) then (s, rst, [], RErr EOther)
+    else
+      let tag := ref_tag (d_dg subj) in
+      let '(s1, t1, res, old) := referrers_from_index s tag in
+      let proceed (oldd : option desc) (oldl : list desc) :=
+        match apply_change oldl (Some ch) with
+        | None => (s1, rst, t1, ROk)
+        | Some upd =>
+            let '(s2, rst2, t2, res2) :=
+              if negb (is_nil upd) || skip_gc then
+                let j := gen_index upd in
+                man_put s1 rst (mkDesc mt_index (H j) (len j)) j true tag
+              else (s1, rst, [], ROk) in
+            match res2 with
+            | ROk =>
+                match oldd with
+                | Some od => if skip_gc then (s2, rst2, t1 ++ t2, ROk)
+                             else let '(s3, t3, res3) := delete_req s2 od true in (s3, rst2, t1 ++ t2 ++ t3, res3)
+                | None => (s2, rst2, t1 ++ t2, ROk)
+                end
+            | _ => (s2, rst2, t1 ++ t2, res2)
+            end
+        end in
+      match res, old with
+      | ROk, Some (od, l) => proceed (Some od) l
+      | RErr ENotFound, _ => proceed None []
+      | _, _ => (s1, rst, t1, res)
+      end.
+
+  (* referrersByTagSchema (artifactType "") *)
+  Definition tag_schema_referrers (s : srv) (d : desc) : srv * trace * result :=
+    if negb (valid_digest (d_dg d)) then (s, [], RErr EOther)
+    else
+      let '(s1, t1, res, old) := referrers_from_index s (ref_tag (d_dg d)) in
+      match res, old with
+      | ROk, Some (_, l) => (s1, t1, RDescs (clean_refs [] l))
+      | RErr ENotFound, _ => (s1, t1, RDescs [])
+      | _, _ => (s1, t1, res)
+      end.
+
   (* pushWithIndexing *)
   Definition man_push (s : srv) (rst : rstate) (d : desc) (c : str) (rf : str)
     : srv * rstate * trace * result :=
@@ -377,7 +516,10 @@ Section Client.
             else match subject_of c with
                  | None => (s1, rst1, t1, RErr EOther)
                  | Some None => (s1, rst1, t1, ROk)
-                 | Some (Some _) => (s1, rs_set rst1 false, t1, RErr EUnmodelled) (* tag schema: C14 *)
+                 | Some (Some sj) =>
+                     (* the registry did not process the subject: referrers tag schema *)
+                     let '(s2, rst2, t2, res2) := update_referrers_index s1 (rs_set rst1 false) sj (RAdd d) in
+                     (s2, rst2, t1 ++ t2, res2)
                  end
         | _ => (s1, rst1, t1, res)
         end
@@ -397,13 +539,18 @@ Section Client.
             | None => (s1, rst, t1, RErr EOther)
             | Some None =>
                 let '(s2, t2, res2) := delete_req s1 d true in (s2, rst, t1 ++ t2, res2)
-            | Some (Some _) =>
+            | Some (Some sj) =>
                 let '(s2, rst2, t2, ok) := ping_referrers s1 rst in
                 match ok with
                 | None => (s2, rst2, t1 ++ t2, RErr EOther)
                 | Some true =>
                     let '(s3, t3, res3) := delete_req s2 d true in (s3, rst2, t1 ++ t2 ++ t3, res3)
-                | Some false => (s2, rst2, t1 ++ t2, RErr EUnmodelled)  (* tag schema: C14 *)
+                | Some false =>
+                    let '(s3, rst3, t3, res3) := update_referrers_index s2 rst2 sj (RRemove d) in
+                    match res3 with
+                    | ROk => let '(s4, t4, res4) := delete_req s3 d true in (s4, rst3, t1 ++ t2 ++ t3 ++ t4, res4)
+                    | _ => (s3, rst3, t1 ++ t2 ++ t3, res3)
+                    end
                 end
             end
       | _ => (s1, rst, t1, res)
@@ -427,30 +574,26 @@ Section Client.
   (* Predecessors through the Referrers API (single page; pagination: C15) *)
   Definition predecessors (s : srv) (rst : rstate) (d : desc) : srv * rstate * trace * result :=
     match rst with
-    | RSUnsupported => (s, rst, [], RErr EUnmodelled)        (* tag schema: C14 *)
+    | RSUnsupported => lift (tag_schema_referrers s d) rst
     | _ =>
         let q := req GET main (EReferrers (d_dg d)) in
         let '(s1, r) := exch s q in
-        if r_status r =? 200 then
-          if str_eqb (nstr (r_ctype r)) mt_index then (s1, rs_set rst true, [(q, r)], RDescs (r_refs r))
-          else match rst with
-               | RSSupported => (s1, rst, [(q, r)], RErr EOther)
-               | _ => (s1, rs_set rst false, [(q, r)], RErr EUnmodelled)
-               end
-        else if r_status r =? 404 then
-          if str_eqb (r_body r) name_unknown then (s1, rst, [(q, r)], RErr EOther)   (* NAME_UNKNOWN *)
-          else
+        (* ErrUnsupported from the API with the capability unknown: fall back to the tag schema *)
+        let fallback :=
           match rst with
           | RSSupported => (s1, rst, [(q, r)], RErr EOther)
-          | _ => (s1, rs_set rst false, [(q, r)], RErr EUnmodelled)
-          end
+          | _ => let '(s2, t2, res2) := tag_schema_referrers s1 d in (s2, rs_set rst false, (q, r) :: t2, res2)
+          end in
+        if r_status r =? 200 then
+          if str_eqb (nstr (r_ctype r)) mt_index then (s1, rs_set rst true, [(q, r)], RDescs (r_refs r))
+          else fallback
+        else if r_status r =? 404 then
+          if str_eqb (r_body r) name_unknown then (s1, rst, [(q, r)], RErr EOther)   (* NAME_UNKNOWN *)
+          else fallback
         else (s1, rst, [(q, r)], status_err r)
     end.
 
   (* ---- Repository: routing by media type ---- *)
-
-  Definition lift (x : srv * trace * result) (rst : rstate) : srv * rstate * trace * result :=
-    let '(s, t, r) := x in (s, rst, t, r).
 
   Definition run_op (s : srv) (rst : rstate) (o : op) : srv * rstate * trace * result :=
     match o with
@@ -483,6 +626,30 @@ Section Client.
         (s2, rst2, (t, r) :: out)
     end.
 End Client.
+
+(* ---------- registry/remote/url.go: the URL a request is sent to ---------- *)
+(* scheme://host/v2/<repository>/... built by the C20 URL builders (Model/Reference.v); the mount
+   query is written verbatim (fmt.Sprintf), the digest of the upload PUT and the referrers page
+   size go through url.Values.Encode (':' escaped).  [sess_path id] is the Location the registry
+   model hands out for an upload session. *)
+Definition esc_colon (s : str) : str := flat_map (fun c => if c =? 58 then b "%3A" else [c]) s.
+
+Definition request_url (plain : bool) (host : str) (ref_page : N) (q : request) : str :=
+  let rf (x : str) := mkRef host (q_repo q) x in
+  (match q_ep q with
+   | EBlob d => url_blob plain (rf d)
+   | EManifest r => url_manifest plain (rf r)
+   | EUploads =>
+       url_upload plain (rf []) ++
+       match q_mount q with Some (d, from) => b "?mount=" ++ d ++ b "&from=" ++ from | None => [] end
+   | ESession id => url_upload plain (rf []) ++ dec_of_N id
+   | EReferrers d =>
+       (* pingReferrers (the zero digest) never sends the page size *)
+       url_referrers plain (rf d) ++
+       (if (ref_page =? 0) || str_eqb d zero_digest then [] else b "?n=" ++ dec_of_N ref_page)
+   end)
+  (* the final PUT of an upload: the Location it was given plus the digest *)
+  ++ match q_digest q with Some d => b "?digest=" ++ esc_colon d | None => [] end.
 
 (* ---------- response corruption (harness: one field of one response) ---------- *)
 
@@ -518,6 +685,8 @@ Section Run.
   Variable main other : str.
   Variable user_mts : list str.
   Variable limit : N.
+  Variable skip_gc : bool.
+  Variable index_of : str -> option (list desc).
   Variable p : profile.
   Variable kor : option (N * corruption).
 
@@ -535,7 +704,7 @@ Section Run.
 
   Definition run_history (other_blobs : list (str * str)) (rst : rstate) (os : list op)
     : reg * list (trace * result) :=
-    let '(s, _, out) := run_ops H parse_mt subject_of main other user_mts limit (reg * N) cexch
+    let '(s, _, out) := run_ops H parse_mt subject_of main other user_mts limit skip_gc index_of (reg * N) cexch
                                 (reg0 other_blobs, 0) rst os in
     (fst s, out).
 End Run.
@@ -552,7 +721,6 @@ Definition read_len (m : bmode) (n avail : N) : N :=
   let a := N.min n avail in
   if bm_chunk m =? 0 then a else N.min a (bm_chunk m).
 
-Definition is_nil {A} (l : list A) : bool := match l with [] => true | _ => false end.
 
 (* one Read(p) with len(p) = n on a body with remaining bytes [rc]: (bytes, rest, EOF?) *)
 Definition read_chunk (m : bmode) (n : N) (rc : str) : str * str * bool :=
